@@ -99,9 +99,16 @@ def run(prop, tier, replay=None):
     if mc["violated"]:
         path = vlib.save_replay(prop, "model_" + mc["violated"], dict(kind="model", invariant=mc["violated"], tlc_tail=mc["out"][-6000:]))
         violations.append(("model invariant %s violated" % mc["violated"], path))
+    e2e_only = None
     if replay:
         with open(replay) as f:
-            scripts = [json.load(f)["script"]]
+            rp = json.load(f)
+        if rp.get("kind") == "clie2e-trace":
+            e2e_only, scripts = rp["script"], []
+        elif rp.get("kind") == "model":
+            scripts = []
+        else:
+            scripts = [rp["script"]]
     else:
         scripts = scripts_for(tier, rng)
     by_id = {s["id"]: s for s in scripts}
@@ -122,6 +129,17 @@ def run(prop, tier, replay=None):
             why=r.get("why") or ("monitor invariant %s violated" % r.get("invariant") if r.get("invariant") else "malformed trace"), trace=[json.loads(x) for x in r["lines"]]))
         violations.append(("%s (%s): %s at line %d (%s)" % (sid, (by_id.get(sid) or {}).get("mode"),
                                                            r.get("why") or ("monitor invariant %s violated" % r.get("invariant") if r.get("invariant") else "malformed trace"), r["line"], r["event"]["e"]), path))
+    extra = {}
+    if e2e_only or not replay:
+        # the command-line program itself (its own run(): the initial event unless --postpone, the real
+        # watcher, a real command), end to end
+        import clie2echeck
+        eviol, extra, estats = clie2echeck.run(prop, tier, rng, only=e2e_only)
+        violations += eviol
+        stats["distinct"] += estats["distinct"]
+        stats["generated"] += estats["generated"]
+        acc += extra["end_to_end_accepted"]
+        total += extra["end_to_end_scripts"]
     with open(tp) as f:
         scen = vlib.split_scenarios(f.readlines())
     distinct = {vlib.digest({k: v for k, v in s.items() if k not in ("id", "origin")}) for s in scripts if nontrivial(s)}
@@ -135,10 +153,10 @@ def run(prop, tier, replay=None):
         rule="scripts with a first run at start-up or at least two change bursts; distinct by (argv, child behaviours, change times)",
         exhaustive=False, samples=samples,
         checker_cmd="tlc CliBusy.tla -config CliBusy_%s.cfg ; cli_driver ; tlc CliMon.tla -config CliMon.cfg (per shard)" % tier,
-        script_families=sorted({s.get("origin", "?") for s in scripts}))
+        script_families=sorted({s.get("origin", "?") for s in scripts}), **extra)
     assumptions = [
         "the CLI's make_config is built from a real argv (so -r / --signal shorthands go through the CLI's normalisation) and runs on a real Watchexec; the spawned command is a simulated child (cfg(watchexec_verif) spawn interceptor), time is tokio's paused clock",
-        "changes are synthetic filesystem events sent with send_event; the start-up event is sent as run_watchexec() does",
+        "changes are synthetic filesystem events sent with send_event; the start-up event is sent as run_watchexec() does (virtual tier); the end-to-end tier runs the CLI's own run() with a real watcher and a real command in real time and demands only what does not depend on exact timing (a script is held against the code only when rejected three times in a row)",
         "queue mode: the waiter task's wake-up latency is smaller than the debounce delay (single-threaded runtime); the multi-threaded race is documented in DESIGN.md and not checked",
     ]
     vlib.write_evidence(prop, tier, coverage, time.time() - t0, len(violations), assumptions)
